@@ -211,6 +211,7 @@ def pressure_cases(draw):
           'low_pct': draw(st.sampled_from([0.2, 0.5, 0.8])), 'hard_pct': draw(st.sampled_from([1.0, 1.25, 2])),
           'flow': True, 'dynamic': draw(st.sampled_from([True, True, False])), 'max_retries': draw(st.sampled_from([1, 1, 2])),
           'pause_after': draw(st.sampled_from([None, None, 10, 25, 120])),
+          'ratio_reset': draw(st.integers(0, 2)) == 0,     # USE_RATIO_RESET (documented option)
           'receivers': draw(st.integers(1, 2)), 'ops': ops, 'quiesce': draw(st.sampled_from(['as-is', 'as-is', 'all-up']))}
 
 
@@ -249,6 +250,7 @@ def failover_cases(draw):
           'low_pct': draw(st.sampled_from([0.2, 0.5, 0.8])), 'hard_pct': draw(st.sampled_from([1.0, 1.25, 2])),
           'flow': True, 'dynamic': draw(st.sampled_from([True, True, True, False])), 'max_retries': draw(st.sampled_from([1, 1, 2])),
           'pause_after': draw(st.sampled_from([None, None, 10, 25, 120])),
+          'ratio_reset': draw(st.integers(0, 2)) == 0,     # USE_RATIO_RESET (documented option)
           'receivers': draw(st.integers(1, 2)), 'ops': ops, 'quiesce': draw(st.sampled_from(['as-is', 'as-is', 'all-up']))}
 
 
